@@ -493,7 +493,8 @@ ARRAYS = [b"[]", b"[1, 2]", b'[{"task_uuid":"u","task_level":[1],"timestamp":1.0
 NULLS = [b"null", b" null ", b"null\r"]
 TEXTS = [b"hello", b"{'a': 1}", b'{"a": 1', b"Traceback (most recent call last):", b"2026-10-02 12:00:00 INFO something happened",
          b'{"a":1}{"b":2}', b'{"task_uuid": "u", "task_level": [1], "timestamp": 1.0', b"<xml/>", b"\x00\x01binary", "\u00fcn\u00efcode text".encode("utf-8"),
-         b"nul", b"[1, 2", b"{,}", b"'single'", b"undefined", b"Not JSON: b'x'", b"1 2"]
+         b"nul", b"[1, 2", b"{,}", b"'single'", b"undefined", b"Not JSON: b'x'", b"1 2",
+         b"[" * 3000, b'{"a":' * 2500]        # nested too deeply for the decoder (RecursionError, fixed in 0a... "fix: eliot-prettyprint survives...")
 BADUTF8 = [b"\xff\xfe", b"\x80abc", b'{"task_uuid": "\xff"}', b"caf\xe9", b"\xc3", b"\xed\xa0\x80", b"\xf8\x88\x80\x80\x80", b'"\xe9"', b"{\xff}"]
 EMPTIES = [b"", b"   ", b"\t", b"\r"]
 FOREIGN = {"missing": MISSING, "scalar": SCALARS, "array": ARRAYS, "null": NULLS, "text": TEXTS, "badutf8": BADUTF8, "empty": EMPTIES}
